@@ -1,6 +1,6 @@
 (* C17 — long and deeply nested programs convert without exhausting recursion (the part carried by theorems). *)
 From Coq Require Import String List ZArith Bool Arith.
-From OL Require Import PyAst Namespace Lower KSem KSim Depth.
+From OL Require Import PyAst Namespace Lower KSem KSim Depth DepthElif.
 Import ListNotations.
 
 (* expr_wrapper = list: a list display is one level deeper than its deepest element, however many elements it has *)
@@ -45,6 +45,22 @@ Theorem C17_returned_statements_height_list : forall n,
   exists e, lower_module cfg_list fun_symtab (ret_prog n) = inl e /\ height e <= 8.
 Proof. exact returned_statements_height_list. Qed.
 Print Assumptions C17_returned_statements_height_list.
+
+(* a chain  if / elif / ... / else  of n tests (Python's own tree nests one If per branch: the source is n + 1 levels deep).
+   if_style = short_circuit: the whole chain is ONE flat `or` of n `and` pairs - height at most 6 for EVERY n *)
+Theorem C17_elif_chain_height_short : forall n,
+  exists e, lower_module cfg_short_list top_symtab (elif_chain n) = inl e /\ height e <= 6.
+Proof. exact elif_chain_height_short. Qed.
+Print Assumptions C17_elif_chain_height_short.
+
+(* if_style = if_expr: one conditional expression per branch - exactly the nesting of the source plus one, no amplification *)
+Theorem C17_elif_chain_height_ifexp : forall n,
+  exists e, lower_module cfg_list top_symtab (elif_chain n) = inl e /\ height e = stmt_nest n + 1.
+Proof. exact elif_chain_height_ifexp. Qed.
+Print Assumptions C17_elif_chain_height_ifexp.
+
+Example C17_elif_nonvacuous : exists e, lower_module cfg_short_list top_symtab (elif_chain 30) = inl e /\ height e = 6.
+Proof. eexists. split; [vm_compute; reflexivity|vm_compute; reflexivity]. Qed.
 
 Example C17_guard_nonvacuous : exists e, lower_module cfg_list top_symtab (guard_prog 40) = inl e /\ height e = 7.
 Proof. eexists. split; [vm_compute; reflexivity|vm_compute; reflexivity]. Qed.
